@@ -208,6 +208,8 @@ func init() {
 			return normStr(symstr{b})
 		}),
 		"strings.Clone": h(func(fr *frame, a []value) value { return a[0] }),
+		"internal/stringslite.Clone": h(func(fr *frame, a []value) value { return a[0] }),
+		"strconv.cloneString": h(func(fr *frame, a []value) value { return a[0] }),
 
 		// --- internal/bytealg
 		"internal/bytealg.IndexByte":       h(extIndexByte),
